@@ -104,6 +104,23 @@ def check_pair(part, db, qt, u, v, c, full=True):
     if not full:
         part.count("evaluations", n)
         return
+    # the exponent-list route with exponents other than 1, in an order that revisits |n| with both signs
+    # (scale-only pairs: the amount in u**n re-expressed in v**n is x * slope**n)
+    base_u = db.GetBaseUnit(qt)
+    if conv(qt, u, base_u, 0.0) == 0 and conv(qt, v, base_u, 0.0) == 0:  # (no offset on either side, not merely equal offsets)
+        slope = conv(qt, u, v, 1.0)
+        if slope > 0 and 1e-60 < slope < 1e60:
+            for ne in (2, -2, 3, -3, -1, 2, -3):
+                for x in (1.0, 2.5, -2.5):
+                    n += 1
+                    e = x * slope**ne
+                    try:
+                        g = conv(qt, [(u, ne)], [(v, ne)], x)
+                    except Exception as ex:
+                        g = repr(ex)
+                    if not (isinstance(g, float) and close(g, e, abs(e), 1e-11)):
+                        bad("db.Convert(exponent lists, exponent %d)" % ne, g, e, "db.Convert(qt, [(u, %d)], [(v, %d)], x)" % (ne, ne))
+                        break
     # ints
     for xi in (1, -2, 1000000):
         n += 1
